@@ -893,3 +893,22 @@ Proof.
     f_equal. apply IH. }
   destruct ok; apply Eabs.
 Qed.
+
+(* ---------- the boolean invariant evaluated on dumped object graphs implies the L0 invariant of the table it denotes,
+   so every L0 theorem that assumes twf applies to abs of any dump that passed inv_b ---------- *)
+Theorem inv_b_twf t : inv_b t = true -> twf (abs t).
+Proof.
+  intros H. destruct (inv_b_facts t H) as (Hnd & _ & _ & Hcols & Hnames).
+  unfold twf, nrows. change (Table.ids (abs t)) with (ia (l_rowid t)).
+  change (slots (abs t)) with (map slot_of_col (l_cols t)). change (names (abs t)) with (l_names t).
+  split; [assumption|]. split.
+  - apply Forall_forall. intros s Hs. apply in_map_iff in Hs. destruct Hs as [c [<- Hc]].
+    rewrite Forall_forall in Hcols. destruct (Hcols c Hc) as [_ Hl _]. exact Hl.
+  - rewrite map_length. assumption.
+Qed.
+
+Corollary winv_wwf (w : world) p : pool w = map abs p -> winv p -> wwf w.
+Proof.
+  intros Hp Hw. unfold wwf. rewrite Hp. apply Forall_forall. intros t Ht. apply in_map_iff in Ht.
+  destruct Ht as [lt [<- Hin]]. apply inv_b_twf. unfold winv in Hw. rewrite Forall_forall in Hw. apply Hw. assumption.
+Qed.
